@@ -166,6 +166,9 @@ def coco (k : String) : Bool :=
   k == "http://www.geant.net/uri/dataprotection-code-of-conduct/v1" ||
   k == "https://refeds.org/category/code-of-conduct/v2"
 
+/-- The only attribute the always-released items may list (Spec/C10.lean). -/
+def keepAlways (a : String) : Bool := asciiLower a == "edupersontargetedid"
+
 def secName (c : Ctx String String) : String :=
   let g := secOf c.secs
   if (g c.sp).isSome then "sp"
@@ -264,8 +267,8 @@ def handle (line : Json) : Json :=
     Json.mkObj [("model", Json.mkObj [("out", outToJson m), ("unchanged", true)]),
       ("path", Json.str (op ++ "/" ++ secN ++ "/" ++ branch ++ "/" ++ (match m with | .ok _ => "ok" | .error e => errStr e))),
       ("features", jstrs feats),
-      ("spec_model", specFilter c identity required optional m && cocoPinned coco c required m),
-      ("spec_impl", specFilter c identity required optional iv && cocoPinned coco c required iv && unchanged)]
+      ("spec_model", specFilter c identity required optional m && pinnedOk coco keepAlways c required m),
+      ("spec_impl", specFilter c identity required optional iv && pinnedOk coco keepAlways c required iv && unchanged)]
   else
     -- `attribute_requirement`: isRequired="true" entries are required, all others optional
     let ras := arrD md "ras"
@@ -283,7 +286,7 @@ def handle (line : Json) : Json :=
       let selfOk := if op == "apply_policy" then
           (match iv with
            | .ok _ => specRestrict c identity required optional subj (.ok (parseAva (arrD impl "self"))) &&
-                      cocoPinned coco c req' (.ok (parseAva (arrD impl "self")))
+                      pinnedOk coco keepAlways c req' (.ok (parseAva (arrD impl "self")))
            | .error _ => true)
         else true
       let mj := if op == "apply_policy" then Json.mkObj [("out", outToJson m), ("self", selfM), ("unchanged", true)]
@@ -291,16 +294,17 @@ def handle (line : Json) : Json :=
       Json.mkObj [("model", mj),
         ("path", Json.str (op ++ "/" ++ secN ++ "/" ++ branch ++ "/" ++ (match m with | .ok _ => "ok" | .error e => errStr e))),
         ("features", jstrs feats),
-        ("spec_model", specRestrict c identity required optional subj m && cocoPinned coco c req' m),
-        ("spec_impl", specRestrict c identity required optional subj iv && cocoPinned coco c req' iv && selfOk && unchanged)]
-    else if op == "authn_response" || op == "attribute_response" then
+        ("spec_model", specRestrict c identity required optional subj m && pinnedOk coco keepAlways c req' m),
+        ("spec_impl", specRestrict c identity required optional subj iv && pinnedOk coco keepAlways c req' iv && selfOk && unchanged)]
+    else if op == "authn_response" || op == "attribute_response" || op == "setup_assertion" then
       let m := if op == "authn_response" then authnRelease c identity required optional subj (boolD cs "best_effort" false)
+               else if op == "setup_assertion" then setupAssertion c identity required optional subj (boolD cs "best_effort" false)
                else attributeRelease c identity required optional subj
       let iv := parseRel impl
       let inner := policyRestrict c identity required optional subj
       let pinnedRel : Release.Release String → Bool := fun o =>
         match o with
-        | .assertion a => cocoPinned coco c req' (.ok a)
+        | .assertion a => pinnedOk coco keepAlways c req' (.ok a)
         | _ => true
       let outcome := match m, inner with
         | .assertion _, .error .missing => "unfiltered"
